@@ -91,9 +91,14 @@ def t_types( ctx ):
         for k in c.keywords:
             if k.arg == 'repeat':
                 u = norm_text( k.value )
-                okrep = u.replace( ' ', '' ) in ( 'struct.calcsize(self.struct_formatifformatisNoneelseformat)',
-                                                  'struct.calcsize(formatifformatisnotNoneelseself.struct_format)',
-                                                  'struct.calcsize(formatorself.struct_format)' )
+                # evaluated, not text-matched: the consumed size is calcsize of the EFFECTIVE format (the argument when given, else the class's)
+                okrep = False
+                if is_call_to( k.value, 'struct.calcsize' ) and k.value.args:
+                    try:
+                        okrep = fold( k.value.args[0], { 'format': None, 'self.struct_format': '<CLS>' } ) == '<CLS>' \
+                            and fold( k.value.args[0], { 'format': '<H', 'self.struct_format': '<CLS>' } ) == '<H'
+                    except NoFold:
+                        okrep = False
                 if not okrep:
                     res.bad( src, c, u, 'octets_struct must consume repeat=struct.calcsize( its format ) octets' )
     if okrep:
@@ -724,7 +729,7 @@ def m_bank( ctx ):
     bank = [ c for c in conj if isinstance( c, ast.Compare ) and isinstance( c.ops[0], ast.Eq )
              and all( isinstance( x, ast.BinOp ) and isinstance( x.op, ast.FloorDiv ) and try_fold( x.right ) == 10000
                       for x in [ c.left, c.comparators[0] ] ) ]
-    reach = [ c for c in conj if isinstance( c, ast.Compare ) and isinstance( c.ops[0], ( ast.Lt, ast.LtE )) and 'reach' in names_in( c ) ]
+    reach = [ c for c in conj if isinstance( c, ast.Compare ) and isinstance( c.ops[0], ( ast.Lt, ast.LtE, ast.Gt, ast.GtE )) and 'reach' in names_in( c ) ]
     extra = [ c for c in conj if c not in bank and c not in reach ]
     if extra:
         res.bad( src, extra[0], extra[0], 'an additional condition restricts merging: ranges of one bank that overlap or lie within reach must always merge, else the output is no longer sorted and pairwise disjoint (registers transferred twice)' )
@@ -815,6 +820,8 @@ def t_tnet( ctx ):
         tag = None
         if isinstance( node.test, ast.Compare ) and isinstance( node.test.ops[0], ast.Eq ):
             tag = try_fold( node.test.comparators[0] )
+            if not isinstance( tag, bytes ):
+                tag = try_fold( node.test.left )
         val = None
         for s in node.body:
             if isinstance( s, ast.Assign ) and dotted( s.targets[0] ) == VALUE:
@@ -862,6 +869,7 @@ def t_tnet( ctx ):
         if m: return ( 'decode', txt( m['_e'] ))
         m = pmatch( e, '_p == _c' )
         if m and isinstance( try_fold( m['_c'] ), bytes ): return ( 'equals', try_fold( m['_c'] ))
+        if m and isinstance( try_fold( m['_p'] ), bytes ): return ( 'equals', try_fold( m['_p'] ))
         m = pmatch( e, 'parse_dict( _p, encoding=_e )' )
         if m: return ( 'parse_dict', )
         m = pmatch( e, 'parse_list( _p, encoding=_e )' )
